@@ -3,6 +3,7 @@ import LlirProofs.Props.C06
 import LlirModel.CallSite
 import LlirProofs.TyParseMain
 import LlirProofs.Core2Mod
+import LlirProofs.Props.C01
 import LlirModel.Generated.Facts
 /-! # C03 — IR built through the constructors prints to valid, faithful LLVM assembly (property theorems only)
 
@@ -77,5 +78,12 @@ example : CallSite.LLVMSpec.calleeSig (Types.tyString (.int 32)) (.cons (.ptr (.
     ≠ some (.func (.int 32) (.cons (.ptr (.int 8) 0) .nil) true) := by
   have h : TyParse.parse (Types.tyString (.int 32)) = some (.int 32) := TyParse.parse_tyString _
   simp [CallSite.LLVMSpec.calleeSig, h]
+
+/-! ## M-Core-3: function definitions -/
+
+/-- a constructed function (any well-formed value of the function model) prints text that the parser reads back as that very function: the
+    printed assembly is accepted and faithful -/
+theorem core3_constructed_prints_faithfully (useHex : Int → Bool) (f : Core3.Func) (h : Core3.wf f = true) :
+    Core3.parse (Core3.printFunc useHex f) = some f := C01.core3_roundtrip useHex f h
 
 end Llir.Props.C03
